@@ -14,6 +14,8 @@ CONSTANTS
     Ticks = FALSE
     Fatal = TRUE
     FlushOnFatal = TRUE
+    ZoneBack = FALSE
+    ZoneTies = FALSE
 INVARIANT TypeOK
 INVARIANT ReadBackIsHistory
 INVARIANT CountBound
